@@ -6,6 +6,7 @@
 From Coq Require Import ZArith List Bool Permutation.
 Import ListNotations.
 Require Import PV.Model.KeyStruct PV.Proofs.KeyStruct_lemmas PV.Proofs.KeyStruct_lemmas2 PV.Proofs.KeyStruct_lemmas3.
+Require Import PV.Lib.Bytes PV.Model.SubArea PV.Proofs.SubArea_lemmas.
 Open Scope Z_scope.
 
 (* ------------------------------------------------------------------ import . export *)
@@ -193,3 +194,15 @@ Theorem C14_repeated_key_prefix_refuted :
   exists a b, import_prefix_dup blob_aba = Ok [a; b] /\ p_label a = 1 /\ p_label b = 2
     /\ p_uids a = [] /\ map u_content (p_uids b) = [[2]; [3]] /\ map sk_label (p_subs b) = [4].
 Proof. eexists. eexists. split; [vm_compute; reflexivity|]. repeat split. Qed.
+
+(* ------------------------------------------------------------------ signature packets inside the key keep their octets *)
+(* KeyStruct treats a signature packet as an atom; that is justified for the two subpacket areas by Model/SubArea.v:
+   copies (copy.copy, PGPKey.pubkey) export what the original exports, and a parsed packet exports what was read *)
+Theorem C14_signature_copy_same_octets : forall reser s,
+  sa_emit reser (sa_copy s) = sa_emit reser s /\ sa_hashed_emit reser (sa_copy s) = sa_hashed_emit reser s.
+Proof. exact copy_same_emit. Qed.
+Print Assumptions C14_signature_copy_same_octets.
+
+Theorem C14_signature_areas_verbatim : forall reser p st rest, sa_parse p = Some (st, rest) -> sa_emit reser st ++ rest = p.
+Proof. exact emit_parse_verbatim. Qed.
+Print Assumptions C14_signature_areas_verbatim.
